@@ -1,14 +1,15 @@
 #!/usr/bin/env python3
 """Prints the markdown table of the round-2 seeded changes from seeded/*-r2-*/meta.json."""
-import json,glob,os,re
+import json,glob,os,re,sys
+R=sys.argv[1] if len(sys.argv)>1 else "2"
 rows=[]
-for d in sorted(glob.glob('/verif/seeded/*-r2-*')):
+for d in sorted(glob.glob(f'/verif/seeded/*-r{R}-*')):
     m=json.load(open(d+'/meta.json'))
     name=os.path.basename(d)
     what=(m.get('what_it_breaks') or '').replace('\n',' ').replace('|','/')
     what=re.split(r'(?<=[.;:])\s',what)[0][:170]
     res=m['result'].replace('\n',' ').replace('|','/')
-    first='caught' if res.startswith('caught') else ('weakly caught' if res.startswith('weakly') else 'missed')
+    first='caught' if res.startswith('caught') else ('weakly caught' if res.startswith('weakly') else ('not a violation of this property' if res.startswith('NOT flagged') else 'missed'))
     rows.append((name,', '.join(m.get('files_changed') or []),what,first,res))
 print("| id | file(s) | seeded change | first run | result / what was strengthened |")
 print("|----|---------|---------------|-----------|--------------------------------|")
